@@ -97,6 +97,7 @@ def run(runobj, spec, timeout=10.0, only=None, verbose=False):
     reps = [(c, eng.verify(c, timeout=timeout)) for c in cs]
     eng.discharge_many([r for _, r in reps], timeout, jobs=int(os.environ.get("PYVC_JOBS", "15")))
     undecided_by_contract = {}
+    oos_by_contract = {}
     # specification-level lemmas (spec/lemma_stubs.py carriers) may cite other lemmas: a lemma whose cited lemma is not
     # discharged in this run is only conditionally proved and is reported undecided
     open_lemmas = {c.name for c, rep in reps if c.ghost.get("lemma") and (rep.out_of_subset or any(o.result.status != "unsat" for o in rep.obligations))}
@@ -160,8 +161,8 @@ def run(runobj, spec, timeout=10.0, only=None, verbose=False):
                 else:
                     res["undecided"].append({"obligation": o.name, "status": r.status, "what": o.detail[:160],
                                              "attempts": r.attempts})
-                    if not getattr(o, "oos", False):
-                        undecided_by_contract.setdefault(id(c), (c, []))[1].append(o)
+                    # (a path outside the subset is searched too, after the undecided ones: see the loop below)
+                    (undecided_by_contract if not getattr(o, "oos", False) else oos_by_contract).setdefault(id(c), (c, []))[1].append(o)
             if verbose:
                 print(f"  {c.name}: {frec['discharged']}/{frec['obligations']} paths={rep.paths} {rep.wall:.1f}s")
             res["functions"].append(frec)
@@ -173,7 +174,13 @@ def run(runobj, spec, timeout=10.0, only=None, verbose=False):
     per = 40 if runobj.tier == "quick" else 1500
     t_m = time.time()
     mon = {}
-    for c, rep in reps:
+
+    def _suspect(cr):
+        # contracts whose proof did not go through (a path left the subset, an obligation failed or stayed undecided) are run
+        # natively first: the time budget used to end before they were reached in properties with hundreds of contracts
+        c_, rep_ = cr
+        return 0 if (rep_.out_of_subset or getattr(rep_, "oos_paths", None) or any(o.result.status != "unsat" for o in rep_.obligations)) else 1
+    for c, rep in sorted(reps, key=_suspect):
         if time.time() - t_m > (30.0 if runobj.tier == "quick" else 600.0):
             break
         n_eval = n_skip = 0
@@ -206,7 +213,7 @@ def run(runobj, spec, timeout=10.0, only=None, verbose=False):
     # a native violation of the contract is a real counterexample and is reported with its replay
     wbudget = 25.0 if runobj.tier == "quick" else 240.0
     t_w = time.time()
-    for c, obls in undecided_by_contract.values():
+    for c, obls in list(undecided_by_contract.values()) + [v for k, v in oos_by_contract.items() if k not in undecided_by_contract]:
         left = wbudget - (time.time() - t_w)
         if left <= 0.5:
             break
